@@ -1,31 +1,22 @@
-import json,os
+import json
 props=[json.loads(l) for l in open('/verif/properties.jsonl')]
 ids=[p['id'] for p in props]
-claimed={
- "C01":("Bounded symbolic model checking of the generator lemmas on the real code: address and port index arithmetic for every subnet / range (math/big interpreted), the ports x addresses combinators, for all values inside the stated bounds.","harness/specs/C01.json; iterator replaced by a seam inside IPs/Ports (its permutation property is C04); chunking and mode selection in command/ are listed as not yet covered in DESIGN.md","5-C01"),
- "C02":("Bounded symbolic model checking of target parsing and confinement: ip.ParseIPNet with the interpreted stdlib parsers on template strings whose digits are solver variables (IPv4/IPv4-mapped/IPv6 hosts and CIDRs, every 1-3 digit prefix) and all short ASCII strings, followed by the real address generator; the real parseExcludeFile + cidranger trie + exclusion filter against a masked-compare oracle for every IPv4 address on a corpus of exclusion files.","exclusion files are a fixed corpus (the address is quantified, the file is sampled); target syntax beyond the templates and strings longer than L is outside the bound","5-C02"),
- "C04":("Bounded symbolic model checking in layers on the real table and iterator code: group selection for every int64 n; per-row number theory (primality by solver over all divisor candidates, generator and coprimality from the certified factorisation); exhaustive permutation check of the real newRangeIterator/Next with math/big interpreted for every n of the small rows and every pair of random draws; concrete orbit check of the first steps on the large rows.","group-theory glue (generator + coprime exponent gives one full cycle; code is uniform in the row) is assumed, not solver-decided; exhaustive walks only for n <= 36 (quick) / 130 (thorough)","5-C04"),
- "C05":("Bounded symbolic model checking of the real Fill of the tcp/udp/icmp/arp fillers with gopacket's serialisers and checksum code interpreted; every field of the produced frame is compared with an RFC-layout reference for all flag sets, ports, addresses, MACs, option values, random draws and the listed payload lengths, both link modes.","payload lengths as listed; math/rand replaced by a seam returning any value of its contract; sums are normalised modulo associativity/commutativity by the engine before reaching the solver","5-C05"),
- "C06":("Bounded symbolic model checking of the real ProcessPacketData of the arp/tcp/icmp processors with the gopacket decoders interpreted: a valid reply followed by a frame whose every byte is a solver variable (listed lengths, cap==len), both link modes; panics, phantom records and record fields not taken from the same frame are violations.","frame lengths listed in the spec; outer IPv4 header length <= 6 (quick) / 7 (thorough) words; two-frame histories; decoder structs assumed to be the only cross-frame state","5-C06"),
- "C11":("Bounded symbolic model checking of the ARP-cache code: destination MAC choice for arbitrary addresses in both spellings with/without gateway, the cache loader on every file of <=3 lines over 8 line classes, and two readers plus a writer under every schedule with <=1/2 pre-emptions where every heap store is a pre-emption point (counterexamples confirmed under the Go race detector).","net.IP.String of a symbolic address modelled as an injective rendering; ARP-frame -> JSON -> loader round trip with symbolic addresses is not covered yet; pre-emption bound 1 (quick) / 2 (thorough)","5-C11"),
- "C13":("Bounded symbolic model checking of the real file generators, exclusion filter and ARP-cache stage on target files whose line classes and positions are solver variables (<=3 lines, 11 classes).","line spellings per class are fixed templates; files longer than 3 lines outside the bound","5-C13"),
- "C18":("Bounded symbolic model checking of every option parser on strings whose every byte is a solver variable (all strings up to length L) against reference readers, plus canonical-rendering round trips with symbolic digits / flag subsets.","strings longer than L (4..6 depending on the parser) outside the bound; stdlib strconv/strings/time.ParseDuration are interpreted from their SSA","5-C18"),
- "C20":("Bounded symbolic model checking of the real ReceivePackets loop over every sequence of <=3 (quick) / <=4 (thorough) read outcomes from 12 fault classes, processor failures, and cancellation during any read, under the engine's goroutine/select semantics.","bursts beyond the 100-slot error buffer and sequences longer than the bound are outside the claim; logical clock for the 5 ms back-off","5-C20"),
-}
+claimed=json.load(open('/verif/tools/claims.json'))
+na_reasons=json.load(open('/verif/tools/not_applicable.json'))
 checks=[]
 for i in ids:
     if i in claimed:
-        t,n,d=claimed[i]
+        c=claimed[i]
         checks.append({"property_id":i,"quick_cmd":"./check %s --tier quick"%i,"thorough_cmd":"./check %s --tier thorough"%i,
           "evidence_file":"/verif/evidence/%s.json"%i,"replay_cmd_template":"./check %s --replay {path}"%i,"engine":"gosym",
-          "level_claimed":{"category":"model_checking","text":t,"design_ref":"DESIGN.md §"+d},
-          "level_note":n+"; trusted: go/ssa lowering, the gosym interpreter and its library models (cross-checked by native replay of sample models and counterexamples), z3",
+          "level_claimed":{"category":"model_checking","text":c["text"],"design_ref":"DESIGN.md §"+c["design"]},
+          "level_note":c["note"]+"; trusted: go/ssa lowering, the gosym interpreter and its library models (cross-checked by native replay of sample models and counterexamples), z3",
           "technique":"bounded symbolic execution of go/ssa + SMT (z3 bit-vectors), native replay of counterexamples"})
-na=[{"property_id":i,"reason":"check not built yet (engine and harnesses under construction; see DESIGN.md)"} for i in ids if i not in claimed]
+na=[{"property_id":i,"reason":na_reasons.get(i,"check not built yet (see DESIGN.md)")} for i in ids if i not in claimed]
 m={"version":1,
  "setup_cmd":"cd /verif/engine && GOFLAGS=-mod=mod GOPROXY=off GOSUMDB=off GOTOOLCHAIN=local go build -o /verif/bin/gosym .",
  "hooks":{"guard":"verif","enable":"none: harnesses and seam-rewritten copies are injected with go/packages Overlay and go test -overlay; /repo is not edited by the machinery","baseline_off_cmd":"cd /repo && go test -vet=off -count=1 ./...","source_commits":[],"add_only":True},
  "engines":[{"name":"gosym","path":"/verif/engine","serves_properties":sorted(claimed),"kind_free_text":"bounded symbolic execution of go/ssa with SMT (z3/cvc5) path exploration and native counterexample replay"}],
  "checks":checks,"not_applicable":na,
- "notes":"fix: commits in /repo recorded in /verif/known_findings.json"}
+ "notes":"fix: commits in /repo are recorded in /verif/known_findings.json; seeded changes used to test the checks are under /verif/seeded"}
 json.dump(m,open('/verif/MANIFEST.json','w'),indent=1)
